@@ -6,6 +6,7 @@ package main
 // query is compared with reference maps maintained from the outcomes.
 
 import (
+	"bytes"
 	"fmt"
 
 	"cosmossdk.io/math"
@@ -65,13 +66,16 @@ func c19Run(r *Run, reg string, depth, shard, shards int) {
 	tB[0] ^= 0xFF // differs only in the first byte
 	tC := append([]byte{}, tA...)
 	tC[31] ^= 0xFF // differs only in the last byte
+	tShort := pad32(bytes.Repeat([]byte{0xA5}, 20)) // a 20-byte remote token, as EVM tokens are; also queried in its short spelling
 	addrX, addrY := distinct32(0xA0), distinct32(0xA1)
 	u := QUniverse{
-		Attesters: []string{Keys[0].Hex, Keys[0].Spell(1), Keys[1].Hex, Keys[2].Hex, Keys[3].Hex},
+		Attesters: []string{Keys[0].Hex, Keys[0].Spell(1), Keys[1].Hex, Keys[2].Hex, Keys[3].Hex, "04", "0"},
 		Denoms:    []string{"uusdc", "uatom", "uosmo"},
 		Nonces:    []noncePair{{0, 0}, {0, 1}, {1, 0}, {1, 1}, {0, 256}},
 		Domains:   []uint32{0, 1, 256, 2},
 	}
+	u.addPair(0, tShort)
+	u.addPair(1, tShort)
 	for _, d := range []uint32{0, 1, 256} {
 		for _, t := range [][]byte{tA, tB, tC} {
 			u.addPair(d, t)
@@ -125,12 +129,13 @@ func c19Run(r *Run, reg string, depth, shard, shards int) {
 	case "limits":
 		addLimits([]string{"uusdc", "UUSDC", "uatom"}, []int64{0, 5})
 	case "attesters":
-		addAttesters([]string{Keys[0].Hex, Keys[0].Spell(1), Keys[1].Hex, Keys[2].Hex})
+		addAttesters([]string{Keys[0].Hex, Keys[0].Spell(1), Keys[1].Hex, "04"})
 	case "nonces":
 		addNonces([]noncePair{{0, 0}, {0, 1}, {1, 0}, {1, 1}})
 	case "combined":
 		addMessengers([]uint32{0, 256}, [][]byte{addrX})
 		addPairs([]uint32{0, 1}, [][]byte{tA, tC}, []string{"UUSDC"})
+		addPairs([]uint32{0}, [][]byte{tShort}, []string{"uusdc", "uatom"})
 		addLimits([]string{"UUSDC", "uatom"}, []int64{5})
 		addAttesters([]string{Keys[0].Spell(1), Keys[1].Hex})
 		addNonces([]noncePair{{0, 1}, {1, 0}})
